@@ -68,10 +68,13 @@ MonoMat(m, M) ==
   LET img == [s \in States(M) |-> ActMono(m, s)]
       live == {s \in States(M) : img[s].sign # 0} IN
   [p \in {<<img[s].s, s>> : s \in live} |-> <<img[p[2]].sign, 0>>]
-RECURSIVE PolyMat(_, _)
-PolyMat(poly, M) ==
-  IF poly = <<>> THEN Zero
-  ELSE MAdd(MScale(<<Head(poly).re, Head(poly).im>>, MonoMat(Head(poly).m, M)), PolyMat(Tail(poly), M))
+\* balanced recursion (depth log n): polynomials of the exact family have hundreds of terms
+RECURSIVE PolyMatRange(_, _, _, _)
+PolyMatRange(poly, M, lo, hi) ==
+  IF lo > hi THEN Zero
+  ELSE IF lo = hi THEN MScale(<<poly[lo].re, poly[lo].im>>, MonoMat(poly[lo].m, M))
+  ELSE LET mid == (lo + hi) \div 2 IN MAdd(PolyMatRange(poly, M, lo, mid), PolyMatRange(poly, M, mid + 1, hi))
+PolyMat(poly, M) == PolyMatRange(poly, M, 1, Len(poly))
 
 PTerm(m, re, im) == [m |-> m, re |-> re, im |-> im]
 Cr(i) == <<1, i>>
